@@ -491,6 +491,31 @@ pub fn main(opts: &Opts) {
             sink.sample(format!("{case} -> {obs}"));
         }
     }
+    // ---- session establishment when only the client's write direction is gone -----------------------
+    // The hello exchange sends and receives concurrently. A peer that no longer reads (its input is
+    // closed, the write fails at once) but whose output stays open and silent must make the
+    // establishment fail, not wait for a hello that will never come.
+    if opts.replay.is_none() && (opts.extra.iter().any(|e| e == "only-close") || (!only_drop && !only_nodrop)) {
+        // (a) in-memory transport: the first send reports an error, nothing is ever delivered
+        {
+            let (t, peer) = mt::new();
+            peer.fail_next_send();
+            let mut est: Pin<Box<dyn Future<Output = Result<Session<mt::MemTransport>, netconf::Error>>>> = Box::pin(Session::verif_new(t));
+            let mut done = false;
+            for _ in 0..8 {
+                if let Poll::Ready(r) = poll_once(&mut est) {
+                    done = true;
+                    sink.direct("hello;send-fails;peer-silent;mem", if r.is_err() { "ok".into() } else { "violation session-established-without-hello".into() });
+                    break;
+                }
+            }
+            if !done {
+                sink.direct("hello;send-fails;peer-silent;mem", "violation establishment-pending-after-send-failed".into());
+            }
+        }
+        // (the same with the real child-process transport is a race between the client's write and the
+        // child closing its input: not scripted)
+    }
     // ---- true parallelism -------------------------------------------------------------------------
     // The hand-polled schedules interleave at `.await` points only. Two reply futures polled on two OS
     // threads at once can also interleave between two statements with no `.await` in between (e.g. a
